@@ -350,6 +350,78 @@ DBL_MAX = Fraction((2 ** 53 - 1) * 2 ** 971)
 U = Fraction(1, 2 ** 53)
 agg_margin = [Fraction(0)]     # largest observed |error| / tolerance over the run (evidence)
 
+def gen_aggk(rng):
+    """Aggregate<double> histories with huge counts: K,i,c,v = the Aggregate of c copies of v (initializing constructor).
+    Counts of 2^32 and more per operand are included: the product of the counts exceeds 2^64 (defect 07, fixed)."""
+    ops = []; size = [0, 0, 0]
+    nops = rng.range(3, 10)
+    cl = pick_cluster(rng) if rng.chance(1, 3) else None
+    while len(ops) < nops:
+        r = rng.below(100); i = rng.below(3)
+        v = cluster_val(rng, cl) if cl else "%d/8" % rng.range(-400, 400)
+        if r < 40:
+            c = rng.choice([1, 2, 5, 1000, 2 ** 20, 2 ** 31, 2 ** 32, 2 ** 32 + 1, 3037000500, 9111001500, 2 ** 33, 2 ** 40])
+            ops.append("K,%d,%d,%s" % (i, c, v)); size[i] = c
+        elif r < 55: ops.append("A,%d,%s" % (i, v)); size[i] += 1
+        elif r < 80:
+            j, k = rng.below(3), rng.below(3)
+            if size[j] + size[k] >= 2 ** 52: continue               # counts stay exactly representable as doubles
+            ops.append("P,%d,%d,%d" % (i, j, k)); size[i] = size[j] + size[k]
+        else:
+            j = rng.below(3)
+            if size[i] + size[j] >= 2 ** 52: continue
+            ops.append("PA,%d,%d" % (i, j)); size[i] += size[j]
+    return "aggk " + " ".join(ops)
+
+def cmp_aggk(case, impl_line, model_line):
+    """weighted exact reference (value -> multiplicity); returns (impl message or None, model message or None)"""
+    g = [{}, {}, {}]
+    def merge(a, b):
+        r = dict(a)
+        for v, c in b.items(): r[v] = r.get(v, 0) + c
+        return r
+    toks = case.split()[1:]
+    for tok in toks:
+        f = tok.split(",")
+        if f[0] == "A": g[int(f[1])] = merge(g[int(f[1])], {Fraction(f[2]): 1})
+        elif f[0] == "K": g[int(f[1])] = {Fraction(f[3]): int(f[2])}
+        elif f[0] == "P": g[int(f[1])] = merge(g[int(f[2])], g[int(f[3])])
+        elif f[0] == "PA": g[int(f[1])] = merge(g[int(f[1])], g[int(f[2])])
+        elif f[0] == "R": g[int(f[1])] = {}
+    N = len(toks) + 1
+    ig = [grp.split() for grp in impl_line.split(" | ")]
+    if len(ig) != 3 or any(len(x) != 8 for x in ig): return ("unparsable output: %r" % impl_line[:100], None)
+    mbad = None
+    try: mg = [grp.split() for grp in model_line.split(" | ")]
+    except Exception: mg = None
+    for i in range(3):
+        w = g[i]; n = sum(w.values())
+        if ig[i][7] != "ACC-OK": return ("variable %d: accessor inconsistent: %s" % (i, ig[i][7]), None)
+        if n == 0:
+            want = (0, Fraction(0), Fraction(0), Fraction(0), DBL_MAX, -DBL_MAX); M = R = Fraction(0); nvar = Fraction(0)
+        else:
+            S = sum(v * c for v, c in w.items()); m = S / n
+            nvar = sum((v - m) ** 2 * c for v, c in w.items())
+            M = max(abs(v) for v in w); R = max(w) - min(w)
+            want = (n, m, nvar / (n - 1) if n > 1 else Fraction(0), nvar / n if n > 1 else Fraction(0), min(w), max(w))
+        try:
+            mv = (int(mg[i][0]),) + tuple(parse_model_q(x) for x in mg[i][1:])
+            if mv != want: mbad = "variable %d: model %s, weighted reference %s" % (i, mg[i], [str(x) for x in want])
+        except Exception:
+            mbad = "unparsable model output %r" % model_line[:100]
+        # few operations on many values: relative error of nvar ~ N u (1 + M / R), plus n (N u M)^2 from the means
+        tm = 16 * N * U * M
+        tn = (64 * N * U * (1 + M / R) * nvar if R > 0 else 0) + 16 * n * (N * U * M) ** 2
+        tol = (0, tm, tn / (n - 1) if n > 1 else 0, tn / n if n > 1 else 0, 0, 0)
+        names = ("count", "mean", "variance(1)", "variance(0)", "min", "max")
+        for k in range(6):
+            try: got = Fraction(ig[i][k]) if k == 0 else Fraction(float(ig[i][k]))
+            except (ValueError, OverflowError): return ("variable %d %s: got %s" % (i, names[k], ig[i][k]), mbad)
+            if abs(got - want[k]) > tol[k]:
+                return ("variable %d %s: got %s, exact value %.17g, |error| %.3g > tolerance %.3g (count %d, magnitude %.3g, range %.3g)"
+                        % (i, names[k], ig[i][k], float(want[k]), float(abs(got - want[k])), float(tol[k]), n, float(M), float(R)), mbad)
+    return (None, mbad)
+
 FLT_MAX = Fraction((2 ** 24 - 1) * 2 ** 104)
 AGG_SENTINEL = {"agg": (DBL_MAX, -DBL_MAX), "aggf": (FLT_MAX, -FLT_MAX),
                 "aggi": (Fraction(2 ** 31 - 1), Fraction(-2 ** 31)), "aggz": (Fraction(2 ** 64 - 1), Fraction(0))}
@@ -465,6 +537,8 @@ API_SURFACE = [
     {"function": "abs_diff<T>, sgn<T>", "instantiations": T10, "called": True, "note": "long long instantiations added in the overload audit; sgn of floating-point types is outside the property (integer helpers)"},
     {"function": "Aggregate<Type>: default ctor, add, operator+, operator+=, copy/assignment, count, mean, variance(ddof=0,1), min, max, sum", "instantiations": "double, float, int, size_t", "called": True, "note": "compared with the exact model / reference; float, int, size_t added in the overload audit"},
     {"function": "Aggregate<Type>: average, avg, total, var, standard_deviation, stdev (ddof 0, 1 and default), span, serialize(Archive&), Aggregate(count, mean, nvar, min, max)", "instantiations": "double, float, int, size_t", "called": True, "note": "checked inside the harness for consistency with mean/sum/variance/min/max (stdev = sqrt(variance), span = max - min for non-empty, serialize + initializing constructor round trip); added in the overload audit"},
+    {"function": "sgn<T> for floating-point T (double, float, long double)", "instantiations": "outside the integer property; exercised for the sign incl. -0.0 and NaN", "called": True, "note": "added in the hypothesis audit"},
+    {"function": "Aggregate<double> with counts up to 2^31 per operand (initializing constructor = c copies of v)", "instantiations": "double", "called": True, "note": "added in the hypothesis audit; counts of 2^32 and more per operand (product beyond 2^64; defect 07, fixed); judged by the exact weighted reference, model compared exactly"},
     {"function": "MSVC and generic #else branches of clz/ctz/ffs/popcount/integer_log2_floor/bswap/rol/ror", "overloads": "not compiled by g++/clang on x86-64", "called": False, "note": "the templates they forward to are called directly"},
 ]
 
@@ -481,6 +555,9 @@ else:
         cases.append(gen_agg_offset(rng))
     for k in range(4000 if ck.thorough() else 450):
         cases.append(gen_agg(rng, rng.choice(["aggf", "aggi", "aggz"])))      # Aggregate<float>, <int>, <size_t>
+    for k in range(2000 if ck.thorough() else 150):
+        cases.append(gen_aggk(rng))                                            # counts up to 2^31 through the initializing constructor
+    cases.append("sgnf 5/2 -5/2 0 -0 nan 1/1024 -1/1024 1e300 -1e300 " + " ".join("%d/8" % rng.range(-100, 100) for _ in range(20)))
     if ck.thorough():
         pass  # the full 2^32 sweep is run separately below (4 processes, unsanitized -O2 build)
     cases.append("sweep32 %d %d %d" % (rng.below(1 << 32), 1031 * (2 * rng.below(1000) + 1), 1 << 21))
@@ -579,6 +656,28 @@ else:
             else:
                 nontriv += int(a.split("nontrivial=")[1])
             continue
+        if kind == "aggk":
+            evaluations += 1; stats["aggregate_histories"] += 1; stats["aggregate_large_counts"] = stats.get("aggregate_large_counts", 0) + 1
+            nontriv += 1 if ("P," in c or "PA," in c) else 0
+            bad, mbad_k = cmp_aggk(c, a, b)
+            if mbad_k and model_issue is None: model_issue = (c, mbad_k)
+            if bad:
+                found = True
+                ck.violation("Aggregate<double> (counts set through the initializing constructor) differs from the exact weighted reference: " + bad,
+                             {"case": c, "impl": a, "replay_cmd": "bin/check C20 --replay <this file>"})
+            if kind not in seen_kinds: seen_kinds.add(kind); samples.append({"case": c, "impl": a})
+            continue
+        if kind == "sgnf":
+            vals = tok[1:]
+            got = a.split()
+            evaluations += 3 * len(vals); stats["sgn_floating"] = 3 * len(vals)
+            for k_, v in enumerate(vals):
+                want = 0 if v in ("nan", "-0", "0") else (1 if float(Fraction(v)) > 0 else -1) if "e" not in v else (1 if float(v) > 0 else -1)
+                if got[3 * k_: 3 * k_ + 3] != [str(want)] * 3:
+                    found = True
+                    ck.violation("sgn<double/float/long double>(%s) = %s, expected %d" % (v, got[3 * k_: 3 * k_ + 3], want), {"case": "sgnf " + v, "impl": a})
+                    break
+            continue
         if kind == "prange":
             evaluations += 1; stats["byte_ranges"] += 1
             bs = [int(x) for x in tok[2:]]
@@ -668,6 +767,11 @@ else:
                 f = os.path.join(ck.scratch, "sweep%d.txt" % q)
                 open(f, "w").write("sweep32 %d 1 %d\n" % (q << 30, 1 << 30))
                 procs.append(subprocess.Popen([fast, f], stdout=subprocess.PIPE, stderr=subprocess.STDOUT, universal_newlines=True))
+            procs16 = []
+            for q in range(4):
+                f = os.path.join(ck.scratch, "sweep16_%d.txt" % q)
+                open(f, "w").write("sweep16 %d %d\n" % (q * 16384, q * 16384 + 16383))
+                procs16.append((q, subprocess.Popen([fast, f], stdout=subprocess.PIPE, stderr=subprocess.STDOUT, universal_newlines=True)))
             for q, p in enumerate(procs):
                 o = p.communicate()[0].strip()
                 if o.startswith("SWEEP ok"):
@@ -675,6 +779,13 @@ else:
                 else:
                     found = True
                     ck.violation("32-bit entry point differs from the bit-loop reference: " + o[:300], {"case": "sweep32 %d 1 %d" % (q << 30, 1 << 30), "impl": o[:500]})
+            for q, p in procs16:
+                o = p.communicate()[0].strip()
+                if o.startswith("SWEEP ok"):
+                    cnt = int(o.split("count=")[1].split()[0]); evaluations += cnt; stats["pairs_16_bit_exhaustive"] = stats.get("pairs_16_bit_exhaustive", 0) + cnt; nontriv += cnt // 2
+                else:
+                    found = True
+                    ck.violation("16-bit pair sweep: " + o[:300], {"case": "sweep16 %d %d" % (q * 16384, q * 16384 + 16383), "impl": o[:500]})
 
 if model_issue is not None and not found:
     ck.violation("model / implementation / reference disagree where the property fixes no value or the model is not faithful: " + model_issue[1][:300],
